@@ -90,6 +90,13 @@ def nxEdges (g : NxGraph) : List (Nat × Nat) := nxEdgesFrom g (nxNodes g) []
 def listRemove? {α} [DecidableEq α] (xs : List α) (v : α) : Option (List α) :=
   if xs.contains v then some (xs.erase v) else none
 
+/-- `list(dict.fromkeys(xs).keys())` = `list(dict.fromkeys(xs))`: the distinct values of `xs` in first-seen order (dicts keep
+    insertion order; a key seen again keeps its first position) -/
+def fromkeysList {α} [DecidableEq α] (xs : List α) : List α := dedup xs
+
+/-- `xs.index(v)` on a list: the position of the first occurrence of `v`; `none` = ValueError (`v` is not in `xs`) -/
+def listIndex? {α} [DecidableEq α] (xs : List α) (v : α) : Option Nat := indexOf? xs v
+
 /-- `itertools.combinations(xs, 2)`: `(xs[i], xs[j])` for `i < j`, in lexicographic order of `(i, j)` -/
 def combinations2 {α} : List α → List (α × α)
   | [] => []
@@ -349,5 +356,59 @@ def calcDihedrals (bonds : List (Nat × Nat)) : Option (List (List Nat)) := do
       pure dihedrals
       )
   pure dihedrals
+
+/-- translated from `assign_bond_types` in mofun/rough_uff.py (FRAGMENT: the type-numbering slice — the `exclude` guard (`len(exclude) >= 2`, exclude a python set) with `delete_if_all_in_set`, the keys `typekey([uff_atom_types[a] for a in atup])`, their first-seen unique list, the position of every key in it; the result is (atoms.bonds, atoms.bond_types) right after the assignment of atoms.bond_types; `none` = IndexError of `uff_atom_types[a]` / ValueError of `list.index`) -/
+def assignBondTypeIds (atoms_bonds : List (List Nat)) (uff_atom_types : List String) (exclude : Option (List Nat)) : Option ((List (List Nat)) × (List Nat)) := do
+  match exclude with
+  | some exclude =>
+    if (Py.setLen exclude) ≥ 2 then
+      let atoms_bonds' : List (List Nat) := (Code.deleteIfAllInSet atoms_bonds exclude)
+      let t3 ← (Py.listMapM? atoms_bonds' (fun atup => (do let t2 ← (Py.listMapM? atup (fun a => (do let t1 ← (uff_atom_types[a]?); pure t1))); pure (Code.typekey t2))))
+      let bond_types : List (List String) := t3
+      let unique_bond_types : List (List String) := (Py6.fromkeysList bond_types)
+      let t5 ← (Py.listMapM? bond_types (fun bt => (do let t4 ← (Py6.listIndex? unique_bond_types bt); pure t4)))
+      let atoms_bond_types' : List Nat := t5
+      pure (atoms_bonds', atoms_bond_types')
+    else
+      let t8 ← (Py.listMapM? atoms_bonds (fun atup => (do let t7 ← (Py.listMapM? atup (fun a => (do let t6 ← (uff_atom_types[a]?); pure t6))); pure (Code.typekey t7))))
+      let bond_types : List (List String) := t8
+      let unique_bond_types : List (List String) := (Py6.fromkeysList bond_types)
+      let t10 ← (Py.listMapM? bond_types (fun bt => (do let t9 ← (Py6.listIndex? unique_bond_types bt); pure t9)))
+      let atoms_bond_types' : List Nat := t10
+      pure (atoms_bonds, atoms_bond_types')
+  | none =>
+    let t13 ← (Py.listMapM? atoms_bonds (fun atup => (do let t12 ← (Py.listMapM? atup (fun a => (do let t11 ← (uff_atom_types[a]?); pure t11))); pure (Code.typekey t12))))
+    let bond_types : List (List String) := t13
+    let unique_bond_types : List (List String) := (Py6.fromkeysList bond_types)
+    let t15 ← (Py.listMapM? bond_types (fun bt => (do let t14 ← (Py6.listIndex? unique_bond_types bt); pure t14)))
+    let atoms_bond_types' : List Nat := t15
+    pure (atoms_bonds, atoms_bond_types')
+
+/-- translated from `assign_angle_types` in mofun/rough_uff.py (FRAGMENT: the type-numbering slice — the `exclude` guard (`len(exclude) >= 3`, exclude a python set) with `delete_if_all_in_set`, the keys `typekey([uff_atom_types[a] for a in atup])`, their first-seen unique list, the position of every key in it; the result is (atoms.angles, atoms.angle_types) right after the assignment of atoms.angle_types; `none` = IndexError of `uff_atom_types[a]` / ValueError of `list.index`) -/
+def assignAngleTypeIds (atoms_angles : List (List Nat)) (uff_atom_types : List String) (exclude : Option (List Nat)) : Option ((List (List Nat)) × (List Nat)) := do
+  match exclude with
+  | some exclude =>
+    if (Py.setLen exclude) ≥ 3 then
+      let atoms_angles' : List (List Nat) := (Code.deleteIfAllInSet atoms_angles exclude)
+      let t3 ← (Py.listMapM? atoms_angles' (fun atup => (do let t2 ← (Py.listMapM? atup (fun a => (do let t1 ← (uff_atom_types[a]?); pure t1))); pure (Code.typekey t2))))
+      let angle_types : List (List String) := t3
+      let unique_angle_types : List (List String) := (Py6.fromkeysList angle_types)
+      let t5 ← (Py.listMapM? angle_types (fun a => (do let t4 ← (Py6.listIndex? unique_angle_types a); pure t4)))
+      let atoms_angle_types' : List Nat := t5
+      pure (atoms_angles', atoms_angle_types')
+    else
+      let t8 ← (Py.listMapM? atoms_angles (fun atup => (do let t7 ← (Py.listMapM? atup (fun a => (do let t6 ← (uff_atom_types[a]?); pure t6))); pure (Code.typekey t7))))
+      let angle_types : List (List String) := t8
+      let unique_angle_types : List (List String) := (Py6.fromkeysList angle_types)
+      let t10 ← (Py.listMapM? angle_types (fun a => (do let t9 ← (Py6.listIndex? unique_angle_types a); pure t9)))
+      let atoms_angle_types' : List Nat := t10
+      pure (atoms_angles, atoms_angle_types')
+  | none =>
+    let t13 ← (Py.listMapM? atoms_angles (fun atup => (do let t12 ← (Py.listMapM? atup (fun a => (do let t11 ← (uff_atom_types[a]?); pure t11))); pure (Code.typekey t12))))
+    let angle_types : List (List String) := t13
+    let unique_angle_types : List (List String) := (Py6.fromkeysList angle_types)
+    let t15 ← (Py.listMapM? angle_types (fun a => (do let t14 ← (Py6.listIndex? unique_angle_types a); pure t14)))
+    let atoms_angle_types' : List Nat := t15
+    pure (atoms_angles, atoms_angle_types')
 
 end Mofun.Generated.Code6
